@@ -48,3 +48,4 @@ import impl_crc  # noqa: E402,F401
 import impl_bf3  # noqa: E402,F401
 import impl_bec2  # noqa: E402,F401
 import impl_aes  # noqa: E402,F401
+import impl_cfg  # noqa: E402,F401
